@@ -42,3 +42,28 @@ Theorem C19_scan_frame_dir : forall tags f l1 l2, considered tags f = false ->
   scan_dir tags (l1 ++ f :: l2) = scan_dir tags (l1 ++ l2).
 Proof. exact scan_frame_dir. Qed.
 Print Assumptions C19_scan_frame_dir.
+From GI Require Import Imports.SpaceTables Imports.SpaceFacts.
+
+(* ---- bytes.TrimSpace / strings.Fields as used by the model, at rune level (white-space runes =
+   the 25 code points unicode.IsSpace accepts, [space_runes]) *)
+
+(* the model's front and back byte tables recognise exactly the UTF-8 encodings of those runes *)
+Theorem C19_space_tables : forall d n,
+  (space_at_front d n <-> (space_prefix d = n /\ n <> 0))
+  /\ (space_at_back d n <-> (space_suffix_rev' d = n /\ n <> 0)).
+Proof. intros d n. split; [apply space_prefix_spec|apply space_suffix_spec]. Qed.
+Print Assumptions C19_space_tables.
+
+(* TrimSpace: a run of white-space runes is removed at each end; the rest neither starts nor ends
+   with one *)
+Theorem C19_trim_space_rune_level : forall d,
+  exists l t, d = l ++ trim_space d ++ t /\ spaces_only l /\ spaces_only t
+              /\ (forall n, ~ space_at_front (trim_space d) n)
+              /\ (forall n, ~ space_at_back (rev (trim_space d)) n).
+Proof. exact trim_space_spec. Qed.
+Print Assumptions C19_trim_space_rune_level.
+
+(* Fields: white-space runes and the maximal white-space-free runs, in order *)
+Theorem C19_fields_rune_level : forall d, fsplit d (fields d).
+Proof. exact fields_spec. Qed.
+Print Assumptions C19_fields_rune_level.
